@@ -61,9 +61,18 @@ def make_case(seed, tier):
         a = rng.randint(1, 150)
         b = a + rng.randint(1, 120)
         tgt = rng.choice(['root', 'root', 'root', 'sub:0', 'sub:1'])
-        ops.append({'op': 'pause', 'target': tgt, 'at_step': a})
-        ops.append({'op': 'resume', 'target': 'root' if rng.random() < 0.6
-                    else tgt, 'at_step': b})
+        if len(case['prog']['workflows']) < 2 and rng.random() < 0.9:
+            tgt = 'root'
+        p_op = {'op': 'pause', 'target': tgt, 'at_step': a}
+        r_op = {'op': 'resume', 'target': 'root' if rng.random() < 0.6
+                else tgt, 'at_step': b}
+        if rng.random() < 0.75:
+            # position relative to the length of the undisturbed run (it is
+            # executed first), so that most pauses land inside the run
+            p_op['at_frac'] = round(rng.uniform(0.03, 0.97), 3)
+            r_op['after'] = rng.choice([1, 3, 10, 30, 90])
+        ops.append(p_op)
+        ops.append(r_op)
     # a final resume on the root so that nothing stays paused
     case['auto_resume'] = 8
     case['ops'] = ops
@@ -79,6 +88,21 @@ def execute(case):
     runs = []
     for i, ops in enumerate([case.get('base_ops') or [], case['ops']]):
         c = dict(case)
+        if i == 1 and runs[0].sim is not None:
+            # length of the undisturbed run = step of its last state change
+            # (what follows is settling time)
+            n = 0
+            for e in runs[0].recorder.events:
+                if e.committed and 'state' in e.vals:
+                    n = max(n, e.step)
+            n = n or runs[0].sim.step
+            ops = copy.deepcopy(ops)
+            last = 0
+            for o in ops:
+                if o.get('at_frac') is not None:
+                    o['at_step'] = last = max(1, int(o['at_frac'] * n))
+                elif o.get('after') is not None:
+                    o['at_step'] = last + o['after']
         c['ops'] = ops
         c['schedule'] = scheds[i] if scheds else None
         runs.append(runner.Runner(c).run())
@@ -254,8 +278,9 @@ def probes(case, res):
             p['resume_ok'] += 1
     p['ref_exact'] = int(bool(res.extra.get('ref_exact')))
     p['backlog_used'] = int(any(
-        'backlog_commands' in str((w['runtime_context'] or {}))
-        for w in res.snap['wf'].values()))
+        e.table == trace.WF and e.committed and
+        'backlog_commands' in (e.vals.get('runtime_context') or {})
+        for e in res.recorder.events))
     return p
 
 
